@@ -568,7 +568,7 @@ theorem sim_rev : ∀ (m : Nat) (T : DTask), RevQ m T := by
         obtain ⟨fv, hfv, vs, hvs, mc, hmc, scope, hsc, s1, h2, rfl⟩ := h
         obtain ⟨dm, hdm, ms⟩ := getMacro_sim_rev hg hmc
         obtain ⟨hp, hdw, hd1, hd2⟩ := ms
-        rw [← hlook] at hfv hvs
+        rw [← hlook] at hfv hvs hsc
         rw [hd1, hd2] at h2
         obtain ⟨d', h3, g⟩ := ih k (Nat.lt_succ_self k) (.dirs dm.dirs dm.target) (scope ++ loc) d
           (st.push scope) o s1 h2 hdw (by simp [St.push, hl]) (hg.of_same rfl rfl rfl) trivial
